@@ -760,3 +760,32 @@ Proof.
   - eapply run_handles_wf; eauto. apply init_inv; auto.
   - eapply run_bounded; eauto. apply init_bounded; auto.
 Qed.
+
+(* ---- primitives that check their own prefix ----------------------------------------- *)
+
+(* When the stored primitive itself refuses inputs that do not carry its prefix
+   (every full primitive; the hybrid, MAC and verifier adapters), the prefix
+   clause is implied by validity: accepted <=> valid under SOME enabled key. *)
+Theorem accept_prefix_checking valid ks x :
+  (forall e, In e ks -> valid e x = true ->
+             fraw e = true \/ prefix_of e = firstn nonraw_prefix_size x) ->
+  ((exists e, accept valid ks x = Some e) <->
+   exists e, In e ks /\ fenabled e = true /\ valid e x = true).
+Proof.
+  intros H. rewrite accept_exists_iff. split.
+  - intros (e & A & B & _ & D). eauto.
+  - intros (e & A & B & D). exists e. repeat split; auto.
+Qed.
+
+Lemma entry_valid_b_carries raw_valid ad d e x : ad <> AdStrip ->
+  (flegacy e = false -> raw_valid e x d = true ->
+   fraw e = true \/ prefix_of e = firstn nonraw_prefix_size x) ->
+  entry_valid_b raw_valid ad d e x = true ->
+  fraw e = true \/ prefix_of e = firstn nonraw_prefix_size x.
+Proof.
+  intros Had Hfull V. destruct (flegacy e) eqn:L.
+  - pose proof (entry_valid_b_prefix raw_valid ad d e x Had L V) as P.
+    destruct (fraw e) eqn:R; [left; reflexivity|right].
+    rewrite prefix_of_length, R in P. symmetry. exact P.
+  - apply Hfull; auto. unfold entry_valid_b in V. rewrite L in V. exact V.
+Qed.
